@@ -167,21 +167,22 @@ fn read_body_port_message<'n>(
         return Err(WriterError::NodeNotFound("operation_name".to_string()));
     };
 
-    // if there are no parts defined we assume that the message is the same as the operation name
-    let (_name, (rust_node, _namespace)) = match in_or_out {
-        InputOrOutput::Input => port_operation
-            .input
-            .message
-            .parts
-            .iter()
-            .next()
-            .ok_or(WriterError::NodeNotFound(operation_name.to_string()))?,
-        InputOrOutput::Output => port_operation
-            .output
-            .as_ref()
-            .and_then(|o| o.message.parts.iter().next())
-            .ok_or(WriterError::NodeNotFound(operation_name.to_string()))?,
+    // without a parts attribute the body is made of the parts of the message that are not bound to a header
+    let header_parts: Vec<&str> = node
+        .parent()
+        .into_iter()
+        .flat_map(|io| io.children())
+        .filter(|n| n.is_element() && n.tag_name().name() == "header")
+        .filter_map(|n| n.attribute("part"))
+        .map(|part| part.split_once(':').map_or(part, |(_, name)| name))
+        .collect();
+    let message = match in_or_out {
+        InputOrOutput::Input => Some(&port_operation.input.message),
+        InputOrOutput::Output => port_operation.output.as_ref().map(|o| &o.message),
     };
+    let (_name, (rust_node, _namespace)) = message
+        .and_then(|m| m.parts.iter().find(|(name, _)| !header_parts.contains(&name.as_str())))
+        .ok_or(WriterError::NodeNotFound(operation_name.to_string()))?;
 
     Ok(rust_node.clone())
 }
